@@ -196,8 +196,11 @@ def run_case(ctx, kind, rng, idx):
         try:
             with warnings.catch_warnings():
                 warnings.simplefilter('ignore')
+                # the switch as computed code holds it: a numpy boolean
+                # (the result of a comparison) or 0/1, not only True/False
+                eqarg = [eqflag, np.bool_(eqflag), int(eqflag)][idx % 3]
                 Cout, T, pi = fn(Cin, prior_counts=pr,
-                                 calculate_eq_probs=eqflag)
+                                 calculate_eq_probs=eqarg)
         except Exception as e:  # noqa
             if info_only:
                 ctx.count('sparse_array_raised_info_only')
